@@ -72,12 +72,45 @@ def run(ctx):
         start = k + 1
     for n in report.get('notes') or []:
         raise vf.Inconclusive('driver note: %s' % n)
-    cov = {'traces_validated_against_impl': accepted,
+    # the client transport as sender: the fork's Transport uploads to a raw-frame server of the harness (same ledger, roles swapped).
+    # A rejection has to repeat in a second recording before it is a verdict (the schedule is seeded, the timing is not).
+    taccepted, tscen, tev = 0, 0, 0
+    first_bad = None
+    for attempt in range(3):
+        ttrace = os.path.join(ctx.scratch, 'c12t_%d.ndjson' % attempt)
+        trep = os.path.join(ctx.scratch, 'c12t_%d.json' % attempt)
+        ctx.run_driver(drv, [ttrace, trep], timeout=1500, env={'VF_C12_MODE': 'transport'})
+        tr = vf.read_json(trep)
+        if tr.get('notes'):
+            raise vf.Inconclusive('transport driver note: %s' % tr['notes'][:2])
+        tlines = open(ttrace).read().splitlines()
+        tv = vf.validate_trace(ctx, 'FlowLedger', 'Trace_C12.cfg', ttrace, 'trace_c12.ndjson', label='trace validation (flow ledger, client transport), recording %d' % (attempt + 1))
+        tscen, tev = len(split(tlines)), len(tlines)
+        if not tv['invariant'] and tv['matched'] >= tv['total']:
+            taccepted = tscen
+            if first_bad is None:
+                break
+            first_bad = None   # did not repeat
+            break
+        tsc = split(tlines)
+        bad = min(tv['matched'], len(tlines) - 1)
+        k = max(i for i in range(len(tsc)) if tsc[i][1] <= bad)
+        name, a, b = tsc[k]
+        info = {'scenario': name, 'event': json.loads(tlines[bad]), 'invariant': tv['invariant'], 'events': [json.loads(x) for x in tlines[a:b + 1]][:300]}
+        if first_bad is not None:
+            e = info['event']
+            kind = 'data_exceeds_window' if e.get('op') == 'data' else 'queued_data_not_delivered' if e.get('op') == 'drained' else 'trace_rejected'
+            ctx.violation({'check': 'C12', 'kind': kind, 'trigger': 'none', 'side': 'transport'},
+                          'client transport, scenario %s (and %s in the previous recording): %s; first unexplained event %s'
+                          % (name, first_bad['scenario'], tv['invariant'] or 'not a behaviour of FlowLedger.tla', e), info)
+            break
+        first_bad = info
+    cov = {'traces_validated_against_impl': accepted + taccepted, 'client_transport': {'scenarios': tscen, 'events': tev, 'accepted': taccepted},
            'samples': [{'trace_prefix': [json.loads(x) for x in lines[:16]]}],
            'scenarios': len(scs), 'events': len(lines), 'driver_report': report,
            'rule': 'one trace per connection: sender scenarios (1-3 streams, response bodies 0..70000, initial windows 0..70000 incl. mid-stream SETTINGS changes that drive windows '
                    'negative, WINDOW_UPDATE schedules, two-step overflow attempts per stream and per connection, final drain); receiver scenarios (uploads to 200000 bytes with '
                    'padding, small and default buffers, certain overrun against a handler that reads nothing, client RST mid-body kept in separate scenarios)'}
     return ctx.finish(cov, assumptions=['the client ledger counts window increases when sent and decreases when acknowledged: an upper bound of what the server may use',
-                                        'the client transport (pkg/http2/transport.go) shares flow.go but is not driven yet',
+                                        'the client transport is driven as a sender of request bodies (windows, SETTINGS changes incl. the maximum frame size); its receive side (credit for response data) is not',
                                         'Flow.tla uses scaled-down constants (windows 8/6, batching threshold 4); the trace uses the real 65535 / 1 MiB / 4096 / 2^31-1'])
